@@ -406,10 +406,10 @@ _OK = {('H', 'H'), ('H', 'e'), ('H', 'E'), ('H', 'D'), ('e', 'e'), ('e', 'E'), (
 
 
 def mon_C09(ctx):
-    if ctx.exc is not None:
-        return
     E = ctx.E
     acts = ctx.acts
+    if ctx.exc is not None and not (acts and acts[-1]['tag'] == 'end'):
+        return      # the count did not finish (C01's subject); a failed post-count assertion leaves a complete history to walk
     prev = None
     electable = len(ctx.electable())
     want = min(ctx.seats, electable)
